@@ -481,7 +481,7 @@ end linear
 
 section linex
 open Cv.Rounding8.LMrun Cv.Rounding7.LM
-attribute [local instance] Examples.instBEqReal Examples.instLawfulBEqReal Examples.instTranscReal
+attribute [local instance] Examples.instBEqReal_compute Examples.instLawfulBEqReal_compute Examples.instTranscReal
   Examples.instFMaxReal
 
 /-- all structural hypotheses of `lm_linear_contraction` instantiated for the straight line `p0 + p1·x` on the
